@@ -229,7 +229,9 @@ TSendAfterEnd ==
 
 (* Subscribe returned.                                                      *)
 EndOK(s, code) ==
-    IF s.expect # "" THEN code = s.expect /\ s.nall = 0
+    \* a refusal: the expected code - or NotFound when the target has been removed meanwhile (the server looks the
+    \* target up before it asks the ACL)
+    IF s.expect # "" THEN (code = s.expect \/ (s.expect = "PermissionDenied" /\ code = "NotFound" /\ s.t \in cfgv.removed)) /\ s.nall = 0
     ELSE CASE s.mode = "once" -> (code = "OK" /\ s.syncs = 1) \/ (code = "NotFound" /\ s.t \in cfgv.removed /\ s.nall = 0)
            [] s.mode = "poll" -> code \in {"OK", "Canceled"} \/ (code = "NotFound" /\ s.t \in cfgv.removed /\ s.nall = 0)
            [] s.mode = "stream" ->
